@@ -33,6 +33,7 @@ import Drivers.ReconPar
 import Drivers.PartMeshb
 import Drivers.InterpLocate
 import Drivers.PhysDist
+import Drivers.MetricPipe
 
 /-! `refdrv <driver> [args]` : dispatch to a line-protocol driver. One match arm per driver, on one line. -/
 
@@ -71,6 +72,7 @@ def main (args : List String) : IO UInt32 := do
   | "partmeshb" :: rest => Drivers.PartMeshb.run rest
   | "interplocate" :: rest => Drivers.InterpLocate.run rest
   | "physdist" :: rest => Drivers.PhysDist.run rest
+  | "metricpipe" :: rest => Drivers.MetricPipe.run rest
   | _ =>
     IO.eprintln s!"refdrv: unknown driver {args}"
     return 2
